@@ -16,6 +16,7 @@ class Tape(SHA256):
         self.chooser = chooser
         self.log = []          # (bound, answer)
         self.kinds = []
+        self.forks = []
 
     def _next(self, bound, kind):
         bound = int(bound)
@@ -56,9 +57,13 @@ class Tape(SHA256):
         return np.array([a + self._next(b - a, "below") for _ in range(k)]).reshape(size)
 
     def __deepcopy__(self, memo):
-        # a deep copy (Experiment with in_place=False) keeps answering from the same script so that the
-        # harness sees every request; the library's own SHA256 copies restart a different stream instead
-        return self
+        # a deep copy (Experiment with in_place=False) is a FORK: a new scripted generator with its own answers and log,
+        # registered with its parent so that the harness sees every request (cryptorandom's own SHA256 copies likewise
+        # continue as a different stream and leave the original generator where it was)
+        import random
+        child = Tape(None, lazy(random.Random(len(self.log) * 7919 + len(self.forks) + 13), "random"))
+        self.forks.append(child)
+        return child
 
 
 def lazy(rng, mode="random"):
